@@ -22,7 +22,7 @@ FLOORS = {"quick": 2000, "thorough": 60000}
 RULE = ("Seeded random demultiplexing scenarios with 1-3 named adapters on R1 (and R2), --times 1-2. Non-trivial = the read passed the "
         "filters and was routed by the demultiplexer (to a named file, unknown, the untrimmed file, or discarded as untrimmed); distinct by "
         "(template kind, adapter names of both mates, processed records).")
-ASSUMPTIONS = ["adapter names are unique", "the differential plain-output run is made only when no trimmed/untrimmed option is used"]
+ASSUMPTIONS = ["two adapters may share a name (variants of one barcode): their reads belong in the same file", "the differential plain-output run is made only when no trimmed/untrimmed option is used"]
 
 
 def evaluate(ctx, sc, d):
@@ -93,7 +93,7 @@ def one_case(ctx, k):
     os.makedirs(d, exist_ok=True)
     try:
         demux = rng.choice(["normal", "normal", "combinatorial"])
-        sc = F.observe(ctx, rng, d, dict(demux=demux, trace=False, paired_p=0.5, filter_scale=0.45, kinds=["a", "a", "g", "b", "a$", "g^", "linked"]))
+        sc = F.observe(ctx, rng, d, dict(demux=demux, trace=False, paired_p=0.5, filter_scale=0.45, shared_names_p=0.2, kinds=["a", "a", "g", "b", "a$", "g^", "linked"]))
         if sc is None:
             return
         sc.case["k"] = k
